@@ -144,7 +144,11 @@ func runC06(c *fw.Case) (o fw.Outcome) {
 			steps = 60
 		}
 	}
-	o.Tag(fmt.Sprintf("NIA%d/NEA%d", iAlg, cAlg))
+	profile := (c.Idx / 6) % 3
+	if c.Idx%8 == 7 {
+		profile = 2 // histories that start before the 2^24 wrap must reach it
+	}
+	o.Tag(fmt.Sprintf("NIA%d/NEA%d", iAlg, cAlg), fmt.Sprintf("reset-profile=%d", profile))
 	hist := fw.Hash(ue.KnasEnc[:], ue.KnasInt[:], []byte{cAlg, iAlg})
 	protected := 0
 	var trace []string
@@ -164,10 +168,22 @@ func runC06(c *fw.Case) (o fw.Outcome) {
 	}()
 	for s := 0; s < steps; s++ {
 		plain, kind := plainUplink(r)
-		sht := uint8(pick(r, 1, 2, 2, 2, 2, 3, 4))
+		// reset profile (by case index): frequent new contexts, rare ones (the 8-bit SQN wraps several times in between),
+		// or none at all (the only way to walk across the 2^24 wrap)
+		sht := uint8(pick(r, 1, 2, 2, 2, 2, 2))
+		switch profile {
+		case 0:
+			if r.Intn(4) == 0 {
+				sht = uint8(3 + r.Intn(2))
+			}
+		case 1:
+			if r.Intn(150) == 0 {
+				sht = uint8(3 + r.Intn(2))
+			}
+		}
 		withCtx := r.Intn(12) != 0
 		newCtx := sht >= 3
-		if r.Intn(40) == 0 {
+		if profile == 0 && r.Intn(40) == 0 {
 			newCtx = !newCtx
 		}
 		if s == 0 && shadow == 0 {
@@ -249,6 +265,12 @@ func runC06(c *fw.Case) (o fw.Outcome) {
 		if !bytes.Equal(got, plain) {
 			o.Fail("not-recovered", "step %d (%s, header type %d, NEA%d): the receiver recovers %x, submitted %x", s, kind, sht, cAlg, clip(got, 32), clip(plain, 32))
 			return
+		}
+		if shadow&0xff == 0xff {
+			o.Count("sqn_wraps", 1)
+		}
+		if shadow == 0xffffff {
+			o.Count("count_wraps_2^24", 1)
 		}
 		shadow = (shadow + 1) & 0xffffff
 		if ue.ULCount.Get() != shadow {
